@@ -19,6 +19,7 @@ RULE = (
     "of the object (field by field, stored<->user conversions from the YAML). distinct = recipe hash; non-trivial as C01/C02"
     " Also (added while the seeded-change rounds of DESIGN section 9 ran): Also decoded: files written through the other writing paths (streams, files opened w / a / r+, compressing files), by deepcopy / pickle copies, from loaded-and-edited objects (C06's generator incl. fixtures, samples resized after loading), with large payloads."
 )
+RULE += " Rounds 12-14 of DESIGN section 9 added: every third project has a failed save (of the project, or of the export of one attached module as an instrument) in its past."
 ASSUMPTIONS = list(refcodec.TRUSTED_BASE) + ["the decoder accepts well-formed chunks the prose does not list (FLGS, SFGS, SLnK) and never demands an undocumented one"]
 REQUIRED_LABELS = {
     "quick": ["project", "synth", "payload_nondefault", "options_set", "links", "cells", "neg_min_ctl_at_min", "metamodule_nested_2_levels", "metamodule_nested_3_levels", "written_from_loaded_and_edited_object", "chunk_payload_of_64KiB_or_more"],
